@@ -237,6 +237,19 @@ def jobs(tier):
                   slices=[srch, prune, pawo], unwind=4, flags=["--object-bits", "10"],
                   domain="every search state: all doubles as coordinates, all flag words, with and without a previous vertex, 0-2 end points; the state and its transpose",
                   expect=[r'h_prune_symmetry\.assertion']))
+    # ---------------- translation invariance of the bend estimator (two calls of the real bends, helpers inlined)
+    consts = slice_lines(MP, r'^static const unsigned int CostDirection[NESW] = \d+;', 4, "CostDirection constants")
+    hb = [slice_func(MP, r'^static unsigned int orthogonalDirection\(const Point &a, const Point &b\)', "orthogonalDirection"),
+          slice_func(MP, r'^static unsigned int dirRight\(unsigned int direction\)', "dirRight"),
+          slice_func(MP, r'^static unsigned int dirLeft\(unsigned int direction\)', "dirLeft"),
+          slice_func(MP, r'^static unsigned int dirReverse\(unsigned int direction\)', "dirReverse"),
+          slice_func(MP, r'^int bends\(const Point& curr, unsigned int currDir, const Point& dest,', "bends")]
+    bt_cxx = (base + pt_pre + "namespace Avoid {\n" + consts.text + "\n" + "\n".join(x.text for x in hb) + "\n}\n"
+              'extern "C" int w_bends(void *curr, unsigned int currDir, void *dest, unsigned int destDir)\n'
+              '{ return Avoid::bends(*(const Avoid::Point *)curr, currDir, *(const Avoid::Point *)dest, destDir); }\n')
+    js.append(Job("bends_translation_invariance", "D", spec, "h_bends_translation", cxx=bt_cxx, defines=["JOB_bends_translation"], slices=hb,
+                  domain="integer-valued coordinates and offsets with |v| <= 2^20 (all sums exact), all 16 direction pairs, curr != dest",
+                  expect=[r'h_bends_translation\.assertion'], flags=["--sat-solver", "cadical"], backend="sat:cadical"))
     return js
 
 
@@ -248,7 +261,9 @@ TRUSTED = [
 ]
 ASSUMPTIONS = [
     "address tie-breaks NOT under obligation (no differing run could be replayed, unobservability not proved): CmpVertInf (libavoid/orthogonal.cpp), CmpVisEdgeRotation's non-orthogonal fallback (makepath.cpp), ActionInfo::operator< for ConnectionPinChange (its comment claims the order is unused)",
-    "NOT decided (residue): bit-identical whole routes/layouts, scene symmetries, translation invariance, permutation independence of VPSC, uninitialised reads outside the constructors covered by C15",
+    "symmetry/translation obligations exist for two kernels only: transposition symmetry of the A* turn-pruning block, translation invariance of bends on integer-valued coordinates",
+    "NOT decided (residue): bit-identical whole routes/layouts, scene symmetries and translation invariance of whole routes, permutation independence of VPSC, uninitialised reads outside the constructors covered by C15",
 ]
 EXPLANATION = ("Value-determinism of the ordering kernels through which allocation addresses could reach results: each comparator's result is proved to be a stated function of "
-               "field values and to evaluate no relational comparison of pointers to different objects; PseudoRandom::getNext is a function of the seed only.")
+               "field values and to evaluate no relational comparison of pointers to different objects; PseudoRandom::getNext is a function of the seed only; the A* turn-pruning decision is invariant under transposing the search state; "
+               "bends is invariant under integer translation.")
